@@ -3,20 +3,18 @@
 
   Proved for every input (no bound):
     C02_content           decoding of every well-spelled piece list (literals, the five named
-                          entities, decimal / hex references with case and leading zeros, CR /
-                          CRLF line ends, attribute-value normalisation) gives the denoted value
-    C02_content_text / _attr   the two instances used by the builder
-    C02_xmlid_partial     normalize_xml_id = strip + collapse when at most one space stands at
-                          either end
+                          entities, decimal / hex references to XML characters with case and
+                          leading zeros, CR / CRLF line ends, attribute-value normalisation)
+                          gives the denoted value
+    C02_xmlid             normalize_xml_id = strip all leading / trailing spaces + collapse runs
+    C02_cdata_line_ends   a CDATA part contributes its content with CR LF / CR turned into LF
+    C02_empty_cdata       an empty CDATA section changes nothing at all
+    C02_namespace_uri     a declaration registers the DECODED attribute value as namespace
+    C02_local_xmlns       only an unprefixed `xmlns` (or the `xmlns:` prefix) is a declaration
     C02_merge, C02_scope_nearest / _base / _unprefixed_attribute   builder-side pieces of merging
                           and XML-Namespaces scoping
-  Proved negations (closed witnesses, replayed on the implementation by the `build` suite):
-    C02_xmlid_false       `xml:id="  x"` keeps a leading space
-    C02_cdata_line_ends_false   CR LF inside CDATA is kept verbatim
-    C02_namespace_uri_false     `xmlns:p='x&amp;y'` registers the URI `x&amp;y`
-    C02_local_xmlns_false       an attribute `p:xmlns` is taken as a default-namespace declaration
-    C02_empty_cdata_false       `<![CDATA[]]>` alone yields an empty text node
-  The full-strength statements are kept as `def …Statement : Prop`.
+  Closed examples (token lists of the real tokenizer, replayed on the implementation by the
+  `build` suite) accompany each of them.
 -/
 import XotModel.Lemmas.ParseContent
 import XotModel.Lemmas.Parse
@@ -26,7 +24,7 @@ namespace XotModel.Props
 open XotModel XotModel.Witness
 
 /-- C02_content: `parse_content` decodes every well-spelled piece list to the value it denotes,
-    at every base position, for text and for attribute values. -/
+    for text and for attribute values. -/
 theorem C02_content (attr : Bool) (ps : List Piece) (h : WellSpelled ps) :
     parseContent attr (renderPieces ps) = .ok (valueOf attr ps) :=
   parse_pieces attr 0 ps 0 h
@@ -51,73 +49,97 @@ example : valueOf true [.lit 'a', .named ['l', 't'], .hex [(0, false), (0, false
 
 /-! ### xml:id -/
 
-/-- Full strength (FALSE for the code as written, see `C02_xmlid_false`). -/
-def C02_xmlid_Statement : Prop := ∀ s : Str, normalizeXmlId s = xmlIdSpec s
+/-- `normalize_xml_id` is the normalisation of https://www.w3.org/TR/xml-id/#id-avn. -/
+theorem C02_xmlid (s : Str) : normalizeXmlId s = xmlIdSpec s :=
+  normalizeXmlId_spec s
 
-theorem C02_xmlid_partial (s : Str)
-    (h1 : (stripOnePrefix s).head? ≠ some ' ')
-    (h2 : (stripOnePrefix (stripOnePrefix s).reverse).head? ≠ some ' ') :
-    normalizeXmlId s = xmlIdSpec s :=
-  normalizeXmlId_partial s h1 h2
+example : normalizeXmlId [' ', ' ', 'x', ' ', ' ', 'y', ' '] = ['x', ' ', 'y'] := by decide
 
-/-- `xml:id="  x"`: one of the two leading spaces survives. -/
-theorem C02_xmlid_false : ¬ C02_xmlid_Statement := by
-  intro h
-  have := h [' ', ' ', 'x']
-  revert this
-  decide
-
-example : normalizeXmlId [' ', ' ', 'x'] = [' ', 'x'] := by decide
-example : xmlIdSpec [' ', ' ', 'x', ' ', ' ', 'y', ' '] = ['x', ' ', 'y'] := by decide
-/-- Non-vacuity of the partial theorem: one space at either end, several inside. -/
-example : normalizeXmlId [' ', 'x', ' ', ' ', 'y', ' '] = xmlIdSpec [' ', 'x', ' ', ' ', 'y', ' '] :=
-  C02_xmlid_partial _ (by decide) (by decide)
-
-/-! ### Closed witnesses of the other C02 defects (token lists of the real tokenizer) -/
-
-/-- `<a><![CDATA[x CR LF y]]></a>`: the text node keeps CR LF (should be `x LF y`). -/
-theorem C02_cdata_line_ends_false :
-    (build .document cdataCrLfLen Env.fresh cdataCrLf none).flat =
-      some [(0, .document), (1, .element 2), (2, .text ['x', '\r', '\n', 'y'])] := by
+/-- `<a xml:id='  x   y '/>`: the attribute node carries `x y` (name id 1 = xml:id). -/
+example : (build .document idSpacesLen Env.fresh idSpaces none).flat =
+    some [(0, .document), (1, .element 2), (2, .attribute 1 ['x', ' ', 'y'])] := by
   rw [build_eq_buildE]; decide +kernel
 
-/-- `<a xmlns:p='x&amp;y'/>`: the namespace registered is the undecoded spelling. -/
-theorem C02_namespace_uri_false :
-    (build .document uriRefLen Env.fresh uriRef none).namespaces.getLast? = some ['x', '&', 'a', 'm', 'p', ';', 'y'] := by
+/-! ### CDATA -/
+
+/-- C02_cdata_line_ends: a non-empty CDATA token adds its content with `CR LF` and `CR` replaced
+    by `LF` (and nothing else decoded) to the current text run. -/
+theorem C02_cdata_line_ends (b : Builder) (t : StrSpan) (h : t.text ≠ []) :
+    b.cdata t = .ok { (b.addText (replaceCr (replaceCrLf t.text))).1 with
+      spans := (b.addText (replaceCr (replaceCrLf t.text))).1.spans.extendText
+        (b.addText (replaceCr (replaceCrLf t.text))).2 t.span } := by
+  unfold Builder.cdata
+  cases ht : t.text with
+  | nil => exact absurd ht h
+  | cons c cs => rfl
+
+example : replaceCr (replaceCrLf ['x', '\r', '\n', 'y', '\r', 'z', '\r', '\r', '\n']) =
+    ['x', '\n', 'y', '\n', 'z', '\n', '\n'] := by decide
+
+/-- `<a><![CDATA[x CR LF y]]></a>`: the text node is `x LF y`. -/
+example : (build .document cdataCrLfLen Env.fresh cdataCrLf none).flat =
+    some [(0, .document), (1, .element 2), (2, .text ['x', '\n', 'y'])] := by
   rw [build_eq_buildE]; decide +kernel
 
-/-- `<a xmlns:p='u' p:xmlns='v'/>`: no attribute node; `("" ↦ v)` is declared instead and the
-    element `a` lands in namespace `v` (name id 2 = (`a`, namespace 3)). -/
-theorem C02_local_xmlns_false :
-    (build .document localXmlnsLen Env.fresh localXmlns none).flat =
-      some [(0, .document), (1, .element 2), (2, .namespace 2 2), (2, .namespace 0 3)] := by
+/-- C02_empty_cdata: an empty CDATA section is skipped entirely (no node, no span). -/
+theorem C02_empty_cdata (b : Builder) (start : Nat) (sp : StrSpan) : b.step (.cdata ⟨[], start⟩ sp) = .ok b := rfl
+
+/-- `<a><![CDATA[]]></a>`: no text node. -/
+example : (build .document emptyCdataLen Env.fresh emptyCdata none).flat =
+    some [(0, .document), (1, .element 2)] := by
   rw [build_eq_buildE]; decide +kernel
 
-/-- `<a><![CDATA[]]></a>`: an empty text node. -/
-theorem C02_empty_cdata_false :
-    (build .document emptyCdataLen Env.fresh emptyCdata none).flat =
-      some [(0, .document), (1, .element 2), (2, .text [])] := by
+/-! ### Namespace declarations -/
+
+/-- C02_namespace_uri: the namespace a declaration binds is the DECODED attribute value
+    (`parse_attribute(value, value.start())`), registered after the prefix. -/
+theorem C02_namespace_uri (b : Builder) (eb : ElementBuilder) (pfx : Str) (uri : StrSpan) (sp : Span) (u : Str)
+    (heb : b.eb = some eb) (hdec : parseContentGo true uri.start 0 uri.text = .ok u)
+    (hnew : (eb.namespaces.any fun d => d.1 == (b.env.internPrefix pfx).2) = false) :
+    b.prefix pfx uri sp = .ok { b with
+      env := ((b.env.internPrefix pfx).1.internNamespace u).1,
+      eb := some { eb with namespaces := eb.namespaces ++
+        [((b.env.internPrefix pfx).2, ((b.env.internPrefix pfx).1.internNamespace u).2)] } } := by
+  unfold Builder.prefix
+  rw [hdec]
+  simp only [heb, hnew, Bool.false_eq_true, if_false]
+
+/-- `<a xmlns:p='x&amp;y'/>`: the namespace registered is `x&y`. -/
+example : (build .document uriRefLen Env.fresh uriRef none).namespaces.getLast? = some ['x', '&', 'y'] := by
   rw [build_eq_buildE]; decide +kernel
 
-/-- A well-formed text on which the builder is right:
-    `<p:a xmlns:p='u' b=''><!--c--><![CDATA[t]]></p:a>`. -/
+/-- C02_local_xmlns: an attribute token is a namespace declaration only if its prefix is `xmlns`
+    or it is the unprefixed `xmlns`; every other attribute — also `p:xmlns` — is an attribute. -/
+theorem C02_local_xmlns (b : Builder) (p l v sp : StrSpan) (hp : p.text ≠ ['x', 'm', 'l', 'n', 's'])
+    (hne : p.text ≠ []) : b.step (.attribute p l v sp) = b.attribute p l v := by
+  have h1 : (p.text == ['x', 'm', 'l', 'n', 's']) = false := by simpa using hp
+  have h2 : p.text.isEmpty = false := by cases hpt : p.text <;> simp_all
+  simp [Builder.step, h1, h2]
+
+/-- `<a xmlns:p='u' p:xmlns='v'/>`: `a` stays in no namespace (name id 2 = (`a`, namespace 0)) and
+    gets an attribute node `{u}xmlns = v`. -/
+example : (build .document localXmlnsLen Env.fresh localXmlns none).flat =
+    some [(0, .document), (1, .element 2), (2, .namespace 2 2), (2, .attribute 3 ['v'])] := by
+  rw [build_eq_buildE]; decide +kernel
+
+/-- A well-formed text with every kind of spelling:
+    `<p:a xmlns:p='u' b='x&#10;y'><!--c-->t&lt;<![CDATA[c]]></p:a>`. -/
 example : (build .document goodDocLen Env.fresh goodDoc none).flat =
-    some [(0, .document), (1, .element 2), (2, .namespace 2 2), (2, .attribute 3 []),
-      (2, .comment ['c']), (2, .text ['t'])] := by
+    some [(0, .document), (1, .element 2), (2, .namespace 2 2), (2, .attribute 3 ['x', '\n', 'y']),
+      (2, .comment ['c']), (2, .text ['t', '<', 'c'])] := by
   rw [build_eq_buildE]; decide +kernel
 
 /-! ### Merging and scoping, as far as proved -/
 
 /-- C02_merge (builder side): feeding two pieces of character data one after the other yields the
     same single text node (same path) as feeding their concatenation; by induction a run of text
-    and CDATA tokens becomes one text node holding the concatenation of the parts as the builder
-    takes them (text parts decoded by `parse_text`, CDATA parts VERBATIM: see
-    `C02_cdata_line_ends_false`). -/
+    and CDATA tokens becomes one text node holding the concatenation of the parts (text parts
+    decoded by `parse_text`, CDATA parts line-end-normalised). -/
 theorem C02_merge (b : Builder) (c1 c2 : Str) : (b.addText c1).1.addText c2 = b.addText (c1 ++ c2) :=
   addText_addText b c1 c2
 
 /-- C02_scope, nearest declaration wins: a prefix is looked up on the element's own start tag
-    first (there the LAST declaration of the prefix), then on the enclosing elements. -/
+    first, then on the enclosing elements. -/
 theorem C02_scope_nearest (d : List (Nat × Nat)) (st : NsStack) (p : Nat) :
     lookupPrefix (d :: st) p = (match findInDecls p d with | some ns => some ns | none => lookupPrefix st p) :=
   lookupPrefix_cons d st p
